@@ -84,20 +84,26 @@ Record call := mkCall {
   c_flush_ok : bool        (* writing and flushing the commands succeeded *)
 }.
 
-(** Result: the stream, the pool events, and whether a counted wire is now neither stored nor carried by the stream *)
-Definition do_stream (c : call) : result (stream * list pev * bool) :=
+(** Result: the stream, the pool events, and whether a counted wire is now neither stored nor carried by the stream.
+    [fixed] = the repaired code (fix: "DoStream/DoMultiStream must store the wire back when the context is already
+    done"): the early return on ctx.Err() stores the wire first.  [fixed = false] is the code as it was found (DESIGN D7),
+    kept as a record only ([do_stream_orig], [lifetime_orig]). *)
+Definition do_stream_gen (fixed : bool) (c : call) : result (stream * list pev * bool) :=
   if c_ctx_done c then
-    (* early return: NewErrorResultStream(ctx.Err()) — the wire acquired by mux.DoStream is not stored *)
-    Ok (mkStream 0 (Some ECtxDone) false, [], c_real c)
+    if fixed then Ok (mkStream 0 (Some ECtxDone) false, [PStore], false)        (* pool.Store(p); NewErrorResultStream(ctx.Err()) *)
+    else Ok (mkStream 0 (Some ECtxDone) false, [], c_real c)                     (* before the fix: the acquired wire is not stored *)
   else if c_state c =? 1 then Panic
   else if c_state c =? 0 then
     if c_flush_ok c then Ok (mkStream (c_ncmd c) None true, [], false)
     else Ok (mkStream 0 (Some EPipe) false, [PClose; PStore], false)     (* error latched, conn closed, stored *)
   else Ok (mkStream 0 (Some EPipe) false, [PStore], false).
 
+Definition do_stream := do_stream_gen true.
+Definition do_stream_orig := do_stream_gen false.
+
 (** the whole life of one call: DoStream, then the caller drains the stream *)
-Definition lifetime (c : call) (replies : list sres) : result (list (N * option serr) * list pev * bool) :=
-  match do_stream c with
+Definition lifetime_gen (fixed : bool) (c : call) (replies : list sres) : result (list (N * option serr) * list pev * bool) :=
+  match do_stream_gen fixed c with
   | Ok (s, evs, leak) =>
     let '(_, outs, evs2, _) := drain (S (length replies)) s replies in
     Ok (outs, evs ++ evs2, leak)
@@ -105,16 +111,35 @@ Definition lifetime (c : call) (replies : list sres) : result (list (N * option 
   | Panic => Panic
   end.
 
+Definition lifetime := lifetime_gen true.
+Definition lifetime_orig := lifetime_gen false.
+
 Definition count_store (l : list pev) : nat := length (filter (fun e => match e with PStore => true | _ => false end) l).
 
+(** what the wire handed out by spool.Acquire is when the call starts:
+    - [wire_err]: p.Error() != nil — every pipe whose state is not 0 has its error latched (the dead pipes of a failed
+      dial and of a done context are created in state 3 with an error; a closing pipe sets the error before the state);
+    - [wire_noslot]: the dead pipe pool.Acquire makes up for a context that is already done; it was never counted in
+      pool.size and pool.Store must not give a slot back for it (pipe.noslot). *)
+Definition wire_err (c : call) : bool := negb (c_state c =? 0).
+Definition wire_noslot (c : call) : bool := negb (c_real c).
+(** the made-up dead pipe is always in state 3 *)
+Definition call_wf (c : call) : bool := c_real c || wire_err c.
+
 (** the pool's books after the events of one call that started on a fresh pool: (size, idle list length).
-    pool.Store puts a healthy wire on the idle list and drops a closed one from the count. *)
-Fixpoint pool_after (size idle : nat) (closed : bool) (evs : list pev) : nat * nat :=
+    pool.Store puts a healthy wire on the idle list; a wire with an error is closed and dropped from the count,
+    unless it never had a slot. *)
+Fixpoint pool_after (size idle : nat) (bad noslot : bool) (evs : list pev) : nat * nat :=
   match evs with
   | [] => (size, idle)
-  | PClose :: r => pool_after size idle true r
-  | PStore :: r => if closed then pool_after (size - 1) idle closed r else pool_after size (S idle) closed r
+  | PClose :: r => pool_after size idle true noslot r
+  | PStore :: r => if bad then pool_after (if noslot then size else size - 1)%nat idle bad noslot r
+                   else pool_after size (S idle) bad noslot r
   end.
+
+(** the books of a fresh pool after one whole call *)
+Definition books (c : call) (evs : list pev) : nat * nat :=
+  pool_after (if c_real c then 1 else 0)%nat 0%nat (wire_err c) (wire_noslot c) evs.
 
 (** ---- correspondence cases (printed by harness/cmd/obs_stream) ---- *)
 Definition oserr_eqb := option_eqb serr_eqb.
@@ -131,7 +156,7 @@ Definition check_case (x : case) : bool :=
     match do_stream c with
     | Ok (s, evs, leak) =>
       let '(s2, outs', evs2, _) := drain (S (length replies)) s replies in
-      let '(sz, id) := pool_after (if c_real c then 1 else 0)%nat 0%nat (negb (c_real c)) (evs ++ evs2) in
+      let '(sz, id) := books c (evs ++ evs2) in
       list_eqb (fun a b => N.eqb (fst a) (fst b) && oserr_eqb (snd a) (snd b)) outs' outs &&
       (sz =? size)%nat && (id =? idle)%nat &&
       oserr_eqb (st_e s2) final_err
